@@ -10,6 +10,7 @@ import (
 	"encoding/json"
 	"errors"
 	"fmt"
+	"math"
 	"regexp"
 	"sort"
 	"strings"
@@ -381,7 +382,10 @@ func (mt *MetricTable) ApplyRules(rules MetricRules) *MetricTable {
 		return mt
 	}
 
-	applied := NewMetricTable(mt.maxTableSize, mt.metricPeriodStart)
+	// Every metric in mt has already been admitted: renaming must not apply
+	// the table size limit a second time, otherwise unforced metrics are
+	// dropped whenever forced metrics have pushed the count past the limit.
+	applied := NewMetricTable(math.MaxInt, mt.metricPeriodStart)
 	// The renamed table is the same payload: keep counting its failed
 	// delivery attempts.
 	applied.failedHarvests = mt.failedHarvests
@@ -396,6 +400,7 @@ func (mt *MetricTable) ApplyRules(rules MetricRules) *MetricTable {
 			applied.mergeMetric(nil, out, scope, metric)
 		}
 	}
+	applied.maxTableSize = mt.maxTableSize
 
 	return applied
 }
